@@ -180,6 +180,17 @@ Theorem C12_conv_keys_not_skipped :
 Proof. exact @conv_keys_not_skipped. Qed.
 Print Assumptions C12_conv_keys_not_skipped.
 
+(* hence the VOLU lines of the written file (the writer's loop) are exactly the
+   cells handed to the conversion *)
+Theorem C12_written_volumes :
+  forall (T : Type) (Sc : Scalar T) (P : prims T) (imp_cards : list (string * list string))
+         (cards : list card) (lats : list (Z * list (Z * Z)))
+         (cells : list (Z * cell (T:=T))) (skipped : list Z),
+    parse_cells Sc P imp_cards cards lats = Ok (cells, skipped) ->
+    written_ids Sc cells skipped = conv_keys Sc cells.
+Proof. exact @written_ids_conv_keys. Qed.
+Print Assumptions C12_written_volumes.
+
 (* ---- where the model (= the code) departs from the property ---- *)
 
 (* "2 LIKE 1 BUT IMP:N=0" with "1 0 -1 IMP:N=1": the card's own importance is
